@@ -192,7 +192,7 @@ func runProxyFree(t *testing.T, idx, variant int, em *Emitter) {
 	if !paced {
 		per = 60 + r.Intn(60)
 	}
-	rig := &pxRig{sc: pxScenario{Icp: icp, ByRef: variant%2 == 0}, orig: map[int64]*Rpc{}}
+	rig := &pxRig{sc: pxScenario{Icp: icp, ByRef: variant%2 == 0}, orig: map[int64]*Rpc{}, byId: map[uint64]int64{}}
 	peers := make([]*freePeer, np)
 	var sentCoq, gotCoq []string
 	var names []int64
@@ -206,10 +206,7 @@ func runProxyFree(t *testing.T, idx, variant int, em *Emitter) {
 			pk := &freePeer{name: int64(k + 1), ep: NewEndpoint(pxName(int64(k + 1)))}
 			pk.ep.ByRef = rig.sc.ByRef
 			pk.ep.OnWrite = func(x *Rpc) {
-				if x.GetBody() == nil {
-					return
-				}
-				v := tokenOf(x.GetBody().GetData())
+				v := int64(x.GetId())
 				mu.Lock()
 				ch := waiters[v]
 				delete(waiters, v)
@@ -283,7 +280,9 @@ func runProxyFree(t *testing.T, idx, variant int, em *Emitter) {
 						h.ProxyNext = append(h.ProxyNext, pxName(x))
 					}
 				}
-				rpc := &Rpc{Id: uint64(tok), Header: h, Body: &goatorepo.Body{Data: payloadOf(tok)}}
+				rpc := &Rpc{Id: uint64(tok), Header: h}
+				pxShape(rpc, r.Intn(pxNumShapes)*r.Intn(2), tok)
+				rig.byId[rpc.Id] = tok
 				if bad == "nohdr" {
 					rpc.Header = nil
 					e.Hdr = false
